@@ -40,6 +40,22 @@ def model_cases(tier, seed):
             add(gen.make_spec(lt, e2), 'edge_tpl')
             e3 = [[edges[0][0], edges[0][1], 'E1', dict(edges[0][3], **{'e1/ge': 1.75})]]
             add(gen.make_spec(lt, e3), 'edge_tpl_attr')
+    # templates that share their NAME but not their values (node templates called `pop`, edge templates called
+    # `coupling`): to_yaml has to keep them apart
+    for nn in (2, 3):
+        for ne in (1, 2):
+            tn = ['NA', 'NB', 'NC'][:nn]
+            sp_ = {'ops': {o: gen.OPLIB[o] for o in ('lin', 't1', 'e1')},
+                   'node_tpls': dict({t: [['lin', {'k': 1.0 + 2.0 * i, 'x': 0.5 + 0.15 * i}]] for i, t in enumerate(tn)},
+                                     T1=[['t1', {}]]),
+                   'edge_tpls': {e: [['e1', {'ge': g}]] for e, g in (('EA', 2.0), ('EB', -3.0))[:ne]}, 'share': True,
+                   'tpl_names': dict({t: 'pop' for t in tn}, **{e: 'coupling' for e in ('EA', 'EB')[:ne]}),
+                   'circuit': {'name': 'net', 'nodes': dict({f'n{i}': t for i, t in enumerate(tn)}, dd='T1'),
+                               'edges': [[f'n{i}/lin/x', 'dd/t1/u', ('EA', 'EB')[i % ne], {'weight': 1.0 + 0.5 * i}]
+                                         for i in range(nn)]}}
+            for vec in (False, True):
+                out.append({'kind': 'model', 'spec': sp_, 'cfg': {'vectorize': vec, 'frontend': 'roundtrip'},
+                            'tag': 'same_template_names', 'seed': seed})
     # shared operators with different per-node overrides
     for k2 in (3.5, 0.25):
         s = gen.make_spec([('a', 'L'), ('b', 'LO'), ('cc', 'T1')],
@@ -245,8 +261,118 @@ def run_xref(case):
     return res
 
 
+DERIVE_HEAD = """%YAML 1.2
+---
+
+op:
+  base: OperatorTemplate
+  equations:
+    - "d/dt * x = -k*x + u"
+  variables:
+    x: output(0.5)
+    k: 1.0
+    u: input(0.0)
+
+pa:
+  base: NodeTemplate
+  operators:
+    op:
+      k: 2.0
+
+pb:
+  base: NodeTemplate
+  operators:
+    op:
+      k: 4.0
+
+pc:
+  base: NodeTemplate
+  operators:
+    op:
+      k: 6.0
+
+pd:
+  base: NodeTemplate
+  operators:
+    op:
+      k: 8.0
+
+base_net:
+  base: CircuitTemplate
+  nodes:
+    a: pa
+    b: pb
+  edges:
+    - [a/op/x, b/op/u, null, {weight: 2.0}]
+"""
+DERIVE_K = {'pa': 2.0, 'pb': 4.0, 'pc': 6.0, 'pd': 8.0}
+
+
+def derive_cases(tier, seed):
+    """circuits derived via base: that override inherited node keys, add nodes and add edges, in every combination"""
+    out = []
+    for override in ({}, {'a': 'pc'}, {'b': 'pc'}, {'a': 'pd', 'b': 'pc'}):
+        for added in ({}, {'cc': 'pd'}, {'cc': 'pa', 'dd': 'pb'}):
+            for extra_edges in ([], [['b/op/x', 'a/op/u', 0.5]]):
+                for order in ('override_first', 'added_first'):
+                    if not override and not added and not extra_edges:
+                        continue
+                    if order == 'added_first' and not (override and added):
+                        continue
+                    edges = [list(e) for e in extra_edges]
+                    if added:
+                        edges.append([f'{list(added)[0]}/op/x', 'b/op/u', -1.5])
+                    out.append({'kind': 'derive', 'override': override, 'added': added, 'edges': edges, 'order': order,
+                                'seed': seed})
+    return out
+
+
+def run_derive(case):
+    from pyrates import CircuitTemplate
+    from .. import impl
+    res = {'evals': 1, 'nontrivial': True}
+    sig = {'features': ['derived_circuit'], 'tag': 'derive'}
+    items = list(case['override'].items()) + list(case['added'].items())
+    if case['order'] == 'added_first':
+        items = list(case['added'].items()) + list(case['override'].items())
+    lines = [DERIVE_HEAD, 'derived_net:', '  base: base_net']
+    if items:
+        lines += ['  nodes:'] + [f'    {k}: {v}' for k, v in items]
+    if case['edges']:
+        lines += ['  edges:'] + [f'    - [{s}, {t}, null, {{weight: {w}}}]' for s, t, w in case['edges']]
+    with open('derive15.yaml', 'w') as f:
+        f.write('\n'.join(lines) + '\n')
+    nodes = dict({'a': 'pa', 'b': 'pb'}, **case['override'])
+    nodes.update(case['added'])
+    edges = [['a/op/x', 'b/op/u', 2.0]] + case['edges']
+    exp = {}
+    for n, t in nodes.items():
+        exp[f'{n}/op/x'] = -DERIVE_K[t] * 0.5 + sum(w * 0.5 for s_, t_, w in edges if t_ == f'{n}/op/u')
+    try:
+        circ = CircuitTemplate.from_yaml('derive15/derived_net')
+        C = impl.compile_field(circ, {'vectorize': False})
+        got = C.call(C.y0(), t=0)
+        if sorted(C.svm) != sorted(exp):
+            res['viol'] = dict(kind='derived_node_set', sig=dict(sig, kind='derived_node_set'), got=sorted(C.svm), expected=sorted(exp))
+            res['ok'] = False
+            return res
+        obs = {k_: float(got[C.position(k_)[0]]) for k_ in exp}
+    except Exception as e:
+        sig['exc'] = type(e).__name__
+        res['viol'] = dict(kind='raises', sig=dict(sig, kind='raises'), detail=f'{type(e).__name__}: {e}'[:200])
+        res['ok'] = False
+        return res
+    if any(abs(obs[k_] - exp[k_]) > 1e-12 for k_ in exp):
+        res['viol'] = dict(kind='derived_circuit_differs', sig=dict(sig, kind='derived_circuit_differs'), got=obs, expected=exp)
+        res['ok'] = False
+        return res
+    res['outcome'] = 'derive'
+    res['ok'] = True
+    return res
+
+
 def cases(tier, seed):
-    return model_cases(tier, seed) + edit_cases(tier, seed) + xref_cases(tier, seed)
+    return model_cases(tier, seed) + edit_cases(tier, seed) + xref_cases(tier, seed) + derive_cases(tier, seed)
 
 
 def describe(tier, seed):
@@ -255,7 +381,8 @@ def describe(tier, seed):
                     'frontend variable with the reference semantics at base point + single deviations; (c) equation edits '
                     '(replace/remove/append/add) over identifier sets that contain one another with each identifier at every '
                     'position, expected equations by token-level editing, and base: chains of length 1-3 with overrides; (d) references between two YAML files (qualified and bare '
-                    'names that exist in both files) in every order of the node / edge / circuit entries; '
+                    'names that exist in both files) in every order of the node / edge / circuit entries; (e) circuits derived via base: '
+                    'that override inherited node keys, add nodes and add edges; (f) round trips of templates that share a name; '
                     'non-trivial = all', 'bounds': {'nodes': 2, 'chain': 3}}
 
 
@@ -287,6 +414,8 @@ def run_case(case):
         return run_edit(case)
     if case['kind'] == 'xref':
         return run_xref(case)
+    if case['kind'] == 'derive':
+        return run_derive(case)
     return run_chain(case)
 
 
